@@ -373,7 +373,7 @@ def classes(case):
 
 SUBS = [
     Sub("pairs-and-edits", check, gen=lambda tier: cases(14), nontrivial=nontrivial, classes=classes,
-        n={"quick": 250, "thorough": 5000},
+        n={"quick": 600, "thorough": 6000},
         essential=["edit:card", "edit:operand", "edit:operator", "edit:move", "edit:split", "edit:merge",
                    "edit:rename", "twin-groups"]),
 ]
